@@ -22,7 +22,7 @@ RULE = (
 REQUIRED = ["iso_checked", "iso_true", "iso_false_same_size", "mappings_checked", "mappings_strictly_smaller_pattern_found",
             "boolean_subgraph_checked", "filter_differentials", "history_queries", "history_cache_shared_hits",
             "hcount_asymmetric_pairs", "graph_morphism_checked", "quick_prefilter_checked", "mono_not_induced_pairs",
-            "pairs_with_mixed_numeric_label_types", "custom_comparator_matters"]
+            "pairs_with_mixed_numeric_label_types", "custom_comparator_matters", "pairs_with_doubly_charged_atoms"]
 ASSUMPTIONS = [
     "isomorphic(a, b) with hcount annotations: first argument is the host (a.hcount >= b.hcount) for equal sizes, as documented",
     "get_mappings: every returned map must be a valid label-preserving monomorphism; non-empty is demanded when the pattern is induced-contained",
@@ -334,6 +334,17 @@ def run(ctx):
         if t % 3 == 0:
             A, Bg = retype(A, rng), retype(Bg, rng)
             ctx.count("pairs_with_mixed_numeric_label_types")
+        if t % 4 == 1:
+            # charges of magnitude 2 next to magnitude 1 on look-alike neighbours (the relabelled copy keeps them)
+            def recharge(g):
+                h = g.copy()
+                for _, d_ in h.nodes(data=True):
+                    if rng.random() < 0.45:
+                        d_["charge"] = rng.choice([-2, -1, -1, -2, 1, 2])
+                return h
+            A = recharge(A)
+            Bg = WG.scramble(A, rng)[0] if rng.random() < 0.6 else recharge(Bg)
+            ctx.count("pairs_with_doubly_charged_atoms")
         check_pair(ctx, A, Bg, "random pairs", ("rnd", repr(WG.describe(A)), repr(WG.describe(Bg))), light=(t % 2 == 0))
         ctx.count("random_pairs")
     # query histories on shared objects
